@@ -848,6 +848,133 @@ fn oracle(c: &Case, seen: &Seen) -> Vec<(String, String)> {
     bad
 }
 
+// ------------------------------------------------------------------- stack-memory selection
+// Oracle-only cases `index stackmem cpu=<0|9> esp=<addr|u> ra=<A|B>:<slot>` (processor.rs:1150-1167):
+// thread 1 (the exception thread) has stack memory A = [0x10000, +0x200) and its own context with
+// sp = A+0x10; the memory list also holds B = [0x20000, +0x200); a module covers [0x400000, +0x1000).
+// One return address into the module is stored at word `slot` of region A or B, everything else is 0.
+// The exception context (readable unless esp=u) has sp = esp. The walk must use the memory region that
+// contains the start context's stack pointer, so the scan finds the return address exactly when it
+// lies in that region at or above the stack pointer, within the scan window.
+
+const A_BASE: u64 = 0x10000;
+const B_BASE: u64 = 0x20000;
+const REG_SIZE: u64 = 0x200;
+const RA: u64 = 0x400310;
+
+fn exec_stackmem(case: &str) -> ImplResult {
+    let f: Vec<&str> = case.split(' ').filter(|s| !s.is_empty()).collect();
+    let bad = || ImplResult { out: "bad-op".into(), oracle: vec![("bad-case".into(), "unparsable stackmem case".into())], ..Default::default() };
+    if f.len() != 5 {
+        return bad();
+    }
+    let (Some(cpu), Some(esp), Some(ra)) = (kv(f[2], "cpu"), kv(f[3], "esp"), kv(f[4], "ra")) else {
+        return bad();
+    };
+    let Ok(cpu) = cpu.parse::<u16>() else { return bad() };
+    if cpu != 0 && cpu != 9 {
+        return bad();
+    }
+    let esp: Option<u64> = if esp == "u" { None } else { match esp.parse() { Ok(v) => Some(v), Err(_) => return bad() } };
+    let Some((reg, slot)) = ra.split_once(':') else { return bad() };
+    let Ok(slot) = slot.parse::<u64>() else { return bad() };
+    let w: u64 = if cpu == 0 { 4 } else { 8 };
+    if (reg != "A" && reg != "B") || (slot + 1) * w > REG_SIZE {
+        return bad();
+    }
+    let region = |with_ra: bool| -> Section {
+        let mut s = Section::with_endian(LE);
+        for i in 0..(REG_SIZE / w) {
+            let v = if with_ra && i == slot { RA } else { 0 };
+            s = if w == 4 { s.D32(v as u32) } else { s.D64(v) };
+        }
+        s
+    };
+    let mem_a = synth::Memory::with_section(region(reg == "A"), A_BASE);
+    let mem_b = synth::Memory::with_section(region(reg == "B"), B_BASE);
+    let tsp = A_BASE + 0x10;
+    let ctx = |ip: u64, sp: u64| -> Section {
+        if cpu == 0 { synth::x86_context(LE, ip as u32, sp as u32) } else { synth::amd64_context(LE, ip, sp) }
+    };
+    let tctx = ctx(0x400100, tsp);
+    let thread = synth::Thread::new(LE, 1, &mem_a, &tctx);
+    let name = synth::DumpString::new("mod", LE);
+    let mut dump = synth::SynthMinidump::with_endian(LE)
+        .add_system_info(synth::SystemInfo::new(LE).set_processor_architecture(cpu).set_platform_id(LINUX))
+        .add_module(synth::Module::new(LE, 0x400000, 0x1000, &name, 0, 0, None))
+        .add(name)
+        .add_thread(thread)
+        .add(tctx)
+        .add_memory(mem_a)
+        .add_memory(mem_b);
+    let mut exc = Section::with_endian(LE).D32(1).D32(0).D32(11).D32(1).D64(0).D64(0x1234).D32(0).D32(0);
+    for _ in 0..15 {
+        exc = exc.D64(0);
+    }
+    match esp {
+        Some(sp) => {
+            let ectx = ctx(0x400200, sp);
+            exc = exc.cite_location(&ectx);
+            dump = dump.add(ectx);
+        }
+        None => exc = exc.D32(0).D32(0),
+    }
+    dump = dump.add_stream(synth::SimpleStream { stream_type: md::MINIDUMP_STREAM_TYPE::ExceptionStream as u32, section: exc });
+    let bytes = dump.finish().expect("synth dump");
+    let md_dump = Minidump::read(bytes).expect("readable dump");
+    let provider = minidump_unwind::Symbolizer::new(minidump_unwind::string_symbol_supplier(Default::default()));
+    let rt = tokio::runtime::Builder::new_current_thread().build().expect("tokio runtime");
+    let state = match rt.block_on(minidump_processor::process_minidump(&md_dump, &provider)) {
+        Ok(s) => s,
+        Err(e) => return ImplResult { out: format!("err:{}", e.name()), oracle: vec![("processable-dump-rejected".into(), e.name().into())], ..Default::default() },
+    };
+    let t = &state.threads[0];
+    let frames: Vec<String> = t.frames.iter().map(|f| format!("{}@{}", f.instruction, f.context.get_stack_pointer())).collect();
+    let out = format!("req:{} frames:{}", opt(state.requesting_thread), frames.join(","));
+    // the documented rule
+    let start_sp = esp.unwrap_or(tsp);
+    let in_reg = |base: u64, a: u64| a >= base && a < base + REG_SIZE;
+    let selected: Option<u64> = if in_reg(A_BASE, start_sp) {
+        Some(A_BASE)
+    } else if in_reg(B_BASE, start_sp) {
+        Some(B_BASE)
+    } else {
+        Some(A_BASE) // fallback: the thread's own stack memory (the walk then stops at once)
+    };
+    let ra_addr = (if reg == "A" { A_BASE } else { B_BASE }) + slot * w;
+    let found = match selected {
+        Some(base) => {
+            in_reg(base, start_sp)
+                && in_reg(base, ra_addr)
+                && ra_addr >= start_sp
+                && (ra_addr - start_sp) % w == 0
+                && (ra_addr - start_sp) / w < 160
+        }
+        None => false,
+    };
+    let mut oracle = vec![];
+    let first_ip = if esp.is_some() { 0x400200 } else { 0x400100 };
+    if t.frames.first().map(|f| (f.instruction, f.context.get_stack_pointer())) != Some((first_ip, start_sp)) {
+        oracle.push(("context-preference".to_string(), format!("first frame {:?}, expected ip {first_ip} sp {start_sp}", frames.first())));
+    }
+    let has_caller = t.frames.len() >= 2;
+    if has_caller != found {
+        oracle.push((
+            "stack-memory-selection".to_string(),
+            format!("{} frames; the return address at {ra_addr:#x} {} reachable from sp {start_sp:#x} in the region containing sp", t.frames.len(), if found { "is" } else { "is not" }),
+        ));
+    }
+    if found && has_caller && (t.frames[1].instruction != RA - 1 || t.frames[1].context.get_stack_pointer() != ra_addr + w) {
+        oracle.push(("stack-memory-selection".to_string(), format!("caller frame {}, expected {}@{}", frames[1], RA - 1, ra_addr + w)));
+    }
+    ImplResult {
+        out,
+        oracle,
+        nontrivial: true,
+        tags: vec![format!("stackmem:{}", if found { "caller-found" } else { "context-only" })],
+    }
+}
+
 // --------------------------------------------------------------------------------- generator
 
 /// (value, variant name) literals of the enums in the repository's error tables, read loosely at
@@ -1379,6 +1506,16 @@ impl Engine for Index {
                 }
             }
         }
+        // --- oracle-only: the stack memory is the region that contains the start context's stack pointer
+        for cpu in [0u16, 9] {
+            for esp in ["u", "65568", "131072", "131104", "131576", "196608", "66040"] {
+                for reg in ["A", "B"] {
+                    for slot in [4u64, 8, 40, 62] {
+                        emit(format!("index stackmem cpu={cpu} esp={esp} ra={reg}:{slot}"));
+                    }
+                }
+            }
+        }
         // --- random
         let n = if tier == Tier::Quick { 6000 } else { 80000 };
         for i in 0..n {
@@ -1387,7 +1524,22 @@ impl Engine for Index {
         }
     }
 
+    fn model_request(&self, case: &str) -> Option<String> {
+        // `index stackmem ..` cases are oracle-only (the model does not walk stacks)
+        if case.starts_with("index stackmem ") {
+            None
+        } else {
+            Some(case.to_string())
+        }
+    }
+
     fn exec(&self, case: &str) -> ImplResult {
+        if case.starts_with("index stackmem ") {
+            return match catch(|| exec_stackmem(case)) {
+                Ok(r) => r,
+                Err(msg) => ImplResult { out: "PANIC".into(), oracle: vec![("panic".into(), msg)], nontrivial: false, tags: vec!["panic".into()] },
+            };
+        }
         let Some(c) = parse_case(case) else {
             return ImplResult { out: "bad-op".into(), ..Default::default() };
         };
